@@ -39,9 +39,12 @@ def sf_ref(phase, lags, step):
     return out
 
 
-def check_sf(ctx, sf_fn, rng):
+def check_sf(ctx, sf_fn, rng, big_step=None):
     step = int(rng.integers(1, 6))
     lags = int(rng.integers(2, 12))
+    if big_step is not None:
+        # large steps (every lag j lands in slot j: index arithmetic such as i / step must be exact for every step)
+        step, lags = int(big_step), int(rng.integers(3, 7))
     rows = lags * step + 1 + int(rng.integers(0, 30))
     cols = int(rng.integers(max(1, (lags + 1) * step), (lags + 1) * step + 40))   # the API bounds the lag count by the column count
     dt = [np.float64, np.float32, np.int64][int(rng.integers(0, 3))]
@@ -176,6 +179,15 @@ def check_tps(ctx, tps, rng):
     want = np.arange(nb) * rate / n
     if ctx.check(np.shape(ax) == want.shape, "tps_axis:length", "axis length %s, expected %d" % (np.shape(ax), nb), wit):
         ctx.close("tps_axis", ax, want, 1e-12 * rate, "tps_axis:values:" + par, dict(wit, frame_rate=rate), scale=rate)
+    # frame rates as integers of any width (a camera header value): 500 Hz x 1000 frames does not fit int16
+    irate = int(rng.choice([50, 150, 500, 1000, 2000, 30000]))
+    for typ in (int, np.int16, np.uint16, np.int32, np.int64, np.float32):
+        axi = tps.get_tps_time_axis(typ(irate), n)
+        wi = np.arange(nb) * float(irate) / n
+        ctx.count("tps_axis_integer_rate_checks")
+        if ctx.check(np.shape(axi) == wi.shape, "tps_axis:length", "axis length %s, expected %d" % (np.shape(axi), nb), wit):
+            ctx.close("tps_axis_integer_rate", np.asarray(axi, dtype=np.float64), wi, (1e-6 if typ is np.float32 else 1e-12) * irate, "tps_axis:values:integer_frame_rate",
+                      dict(wit, frame_rate=irate, frame_rate_type=typ.__name__), scale=float(irate))
 
 
 def check_tps_large(ctx, tps, rng):
@@ -199,6 +211,14 @@ def run(ctx, spec):
     for rep in range(spec["reps"]):
         check_sf(ctx, sf_fn, rng)
         check_tps(ctx, tps, rng)
+    # every step from 6 to 200 over the shards (quick: 12 per shard; thorough: all), always including 49 / 98 / 103 / 107 / 161,
+    # the first steps for which j * step * (1 / step) < j in double precision
+    steps = [st for st in range(6, 201) if st % 16 == spec["shard"]]
+    if spec["reps"] <= 100:
+        steps = steps[:: max(1, len(steps) // 9)]
+    steps += [[49, 98, 103, 107, 161][spec["shard"] % 5]]
+    for st in steps:
+        check_sf(ctx, sf_fn, rng, big_step=st)
     check_sf_ensemble(ctx, aotools, sf_fn, rng, spec["ensemble_N"])
     if spec["shard"] % 4 == 2:
         check_tps_large(ctx, tps, rng)
